@@ -24,7 +24,8 @@ RULE = ("every tree shape with <= L levels / N leaves x label scheme {C: "
         "quoting, D: same labels on all levels, B} x name tables {absent, "
         "partial with readable level names} x level-name scheme {plain, "
         "containing name/label/alias/assignment} x configurations "
-        "{iterations 1 / 3} x {runners-up 0,2,10} x {as is, flatten, drop "
+        "{iterations 1 / 3} x {runners-up 0,1,2,10} x cell ids {ASCII, with "
+        "multi-byte characters} x {as is, flatten, drop "
         "each level}; CSV parsed with the csv module, HDF5 read back with "
         "hdf5_to_blob, embedded taxonomy compared with the input.  "
         "distinct_nontrivial = distinct (shape, scheme, tables, level "
@@ -62,12 +63,12 @@ def cases(tier, seed):
 
 def config_space(L):
     for it in (3, 1):
-        for nr in (2, 0, 10):
+        for nr in (2, 0, 10, 1):
             reds = [{}] + [{'drop_level': i} for i in range(L - 1)]
             if L > 1:
                 reds.append({'flatten': True})
             for red in reds:
-                if nr == 10 and red:
+                if nr in (10, 1) and red:
                     continue
                 cfg = {'iterations': it, 'n_runners_up': nr}
                 cfg.update(red)
@@ -208,6 +209,10 @@ def evaluate(case, scratch):
     spec = {'L': L, 'shape': case['shape'], 'scheme': case['scheme'],
             'n_cells': 4, 'seed': case['seed'], 'marker_mode': 'full',
             'name_mapper': case['tables']}
+    if case['tables']:
+        # identifiers whose UTF-8 encoding is longer than their character
+        # count
+        spec['id_prefix'] = 'Z\u00fc\u00df_'
     if case['tricky']:
         spec['level_names'] = TRICKY_LEVELS[:L]
     b = scenario.build(spec, scratch.new_dir('in') / 'in')
